@@ -753,11 +753,8 @@ func (ss *SpecSet) parseLines(lines []string, pkgPath, file string) error {
 				for _, f := range strings.Split(it.rest, ",") {
 					f = strings.TrimSpace(f)
 					if f != "" {
-						if curLoop != nil {
-							curLoop.Modifies = append(curLoop.Modifies, f)
-						} else {
-							cur.Modifies = append(cur.Modifies, f)
-						}
+						// a frame clause always belongs to the function, wherever it is written
+						cur.Modifies = append(cur.Modifies, f)
 					}
 				}
 			case "let":
